@@ -638,31 +638,51 @@ Definition fac_mono (gf gf' : nat -> option Z) : Prop :=
 Definition idx_sound (gf : nat -> option Z) (r : urec) : Prop :=
   forall d uf, idx_get d (idx r) = Some uf -> 0 < uf /\ gf d <> None.
 
-Lemma load_coin_bind gf r acc d :
-  load_coin gf r acc d = bind acc (fun tot => load_coin gf r (ret tot) d).
+(* the supply-side formula (Mul, then Quo) is monotone in the global factor as well *)
+Lemma sup_interest_mono a uf f f' : 0 <= a -> 0 < uf -> 0 <= f <= f' ->
+  sup_interest a f uf <= sup_interest a f' uf.
+Proof.
+  intros Ha Hu Hf. unfold sup_interest, dec_trunc_int.
+  apply Z.quot_le_mono; [reflexivity|].
+  assert (A0 : 0 <= dec_of_int a) by (unfold dec_of_int, PREC; lia).
+  assert (M0 : 0 <= dec_mul (dec_of_int a) f) by (apply dec_mul_nonneg; lia).
+  assert (M : dec_mul (dec_of_int a) f <= dec_mul (dec_of_int a) f').
+  { unfold dec_mul. apply chop_round_mono_nonneg. nia. }
+  assert (dec_quo (dec_mul (dec_of_int a) f) uf <= dec_quo (dec_mul (dec_of_int a) f') uf).
+  { unfold dec_quo. apply chop_round_mono_nonneg. pose proof PREC_pos. split.
+    - apply Z.quot_pos; nia.
+    - apply Z.quot_le_mono; [lia|]. nia. }
+  lia.
+Qed.
+
+Definition intf_mono (intf : Z -> Z -> Z -> Z) : Prop :=
+  forall a uf f f', 0 <= a -> 0 < uf -> 0 <= f <= f' -> intf a f uf <= intf a f' uf.
+
+Lemma load_coin_f_bind intf gf r acc d :
+  load_coin_f intf gf r acc d = bind acc (fun tot => load_coin_f intf gf r (ret tot) d).
 Proof. destruct acc as [a []| |]; reflexivity. Qed.
 
-Lemma load_fold_mono gf gf' r l :
+Lemma load_fold_mono_f intf gf gf' r l : intf_mono intf ->
   (forall d, 0 <= amt r d) -> fac_nonneg gf -> fac_mono gf gf' -> idx_sound gf r ->
   forall (tot tot' c : coins), (forall d, tot d <= tot' d) ->
-  fold_left (load_coin gf r) l (ret tot) = Ok c tt ->
-  exists c', fold_left (load_coin gf' r) l (ret tot') = Ok c' tt /\ forall d, c d <= c' d.
+  fold_left (load_coin_f intf gf r) l (ret tot) = Ok c tt ->
+  exists c', fold_left (load_coin_f intf gf' r) l (ret tot') = Ok c' tt /\ forall d, c d <= c' d.
 Proof.
-  intros Ha Hn Hm Hs. induction l as [|d l IH]; intros tot tot' c Ht H; cbn [fold_left] in *.
+  intros Hi Ha Hn Hm Hs. induction l as [|d l IH]; intros tot tot' c Ht H; cbn [fold_left] in *.
   - apply ret_ok in H. subst. exists tot'. split; [reflexivity|assumption].
-  - destruct (load_coin gf r (ret tot) d) as [t1 []| |] eqn:G.
-    2,3: exfalso; eapply (fold_not_ok _ _ l _ (load_coin_bind gf r)); [|exact H]; discriminate.
-    assert (K : exists t1', load_coin gf' r (ret tot') d = Ok t1' tt /\ forall x, t1 x <= t1' x).
-    { unfold load_coin in *. cbn [bind ret] in *.
+  - destruct (load_coin_f intf gf r (ret tot) d) as [t1 []| |] eqn:G.
+    2,3: exfalso; eapply (fold_not_ok _ _ l _ (load_coin_f_bind intf gf r)); [|exact H]; discriminate.
+    assert (K : exists t1', load_coin_f intf gf' r (ret tot') d = Ok t1' tt /\ forall x, t1 x <= t1' x).
+    { unfold load_coin_f in *. cbn [bind ret] in *.
       destruct (gf d) as [f|] eqn:Egf.
       - destruct (Hm d f Egf) as (f' & Egf' & Hff). rewrite Egf'.
         destruct (idx_get d (idx r)) as [uf|] eqn:Ei.
         + destruct (Hs d uf Ei) as [Hu _].
           destruct (Z.eqb_spec uf 0); [lia|].
-          destruct (Z.ltb_spec (bor_interest (amt r d) f uf) 0); [discriminate|].
+          destruct (Z.ltb_spec (intf (amt r d) f uf) 0); [discriminate|].
           apply ret_ok in G. subst t1.
-          pose proof (bor_interest_mono (amt r d) uf f f' (Ha d) Hu (conj (Hn d f Egf) Hff)) as M.
-          destruct (Z.ltb_spec (bor_interest (amt r d) f' uf) 0); [lia|].
+          pose proof (Hi (amt r d) uf f f' (Ha d) Hu (conj (Hn d f Egf) Hff)) as M.
+          destruct (Z.ltb_spec (intf (amt r d) f' uf) 0); [lia|].
           eexists. split; [reflexivity|]. intros x. unfold upd. destruct (Nat.eqb x d); [lia|apply Ht].
         + apply ret_ok in G. subst t1. exists tot'. split; [reflexivity|assumption].
       - apply ret_ok in G. subst t1.
@@ -672,15 +692,42 @@ Proof.
     destruct K as (t1' & G' & Ht1). rewrite G'. eapply IH; eauto.
 Qed.
 
+Lemma load_synced_f_mono intf n gf gf' r c : intf_mono intf ->
+  (forall d, 0 <= amt r d) -> fac_nonneg gf -> fac_mono gf gf' -> idx_sound gf r ->
+  load_synced_f intf n gf r = Ok c tt ->
+  exists c', load_synced_f intf n gf' r = Ok c' tt /\ forall d, c d <= c' d.
+Proof.
+  intros Hi Ha Hn Hm Hs. unfold load_synced_f. intros H. inv_bind H as tot E. apply ret_ok in H. subst c.
+  destruct (load_fold_mono_f intf gf gf' r _ Hi Ha Hn Hm Hs czero czero tot (fun d => Z.le_refl _) E) as (t' & E' & Ht).
+  exists (cadd (amt r) t'). rewrite E'. cbn [bind ret]. split; [reflexivity|]. intros d. unfold cadd. specialize (Ht d). lia.
+Qed.
+
+(* the borrow-side query is the instance of the generic one at [bor_interest] *)
+Lemma load_coin_is_f : load_coin = load_coin_f bor_interest.
+Proof. reflexivity. Qed.
+Lemma load_synced_is_f : load_synced = load_synced_f bor_interest.
+Proof. reflexivity. Qed.
+
+Lemma load_coin_bind gf r acc d :
+  load_coin gf r acc d = bind acc (fun tot => load_coin gf r (ret tot) d).
+Proof. destruct acc as [a []| |]; reflexivity. Qed.
+Lemma load_coin_sup_bind gf r acc d :
+  load_coin_sup gf r acc d = bind acc (fun tot => load_coin_sup gf r (ret tot) d).
+Proof. apply load_coin_f_bind. Qed.
+
 Lemma load_synced_mono n gf gf' r c :
   (forall d, 0 <= amt r d) -> fac_nonneg gf -> fac_mono gf gf' -> idx_sound gf r ->
   load_synced n gf r = Ok c tt ->
   exists c', load_synced n gf' r = Ok c' tt /\ forall d, c d <= c' d.
 Proof.
-  intros Ha Hn Hm Hs. unfold load_synced. intros H. inv_bind H as tot E. apply ret_ok in H. subst c.
-  destruct (load_fold_mono gf gf' r _ Ha Hn Hm Hs czero czero tot (fun d => Z.le_refl _) E) as (t' & E' & Ht).
-  exists (cadd (amt r) t'). rewrite E'. cbn [bind ret]. split; [reflexivity|]. intros d. unfold cadd. specialize (Ht d). lia.
+  rewrite load_synced_is_f. apply load_synced_f_mono. intros a uf f f'. apply bor_interest_mono.
 Qed.
+
+Lemma load_synced_sup_mono n gf gf' r c :
+  (forall d, 0 <= amt r d) -> fac_nonneg gf -> fac_mono gf gf' -> idx_sound gf r ->
+  load_synced_sup n gf r = Ok c tt ->
+  exists c', load_synced_sup n gf' r = Ok c' tt /\ forall d, c d <= c' d.
+Proof. apply load_synced_f_mono. intros a uf f f'. apply sup_interest_mono. Qed.
 
 Lemma fac_mono_refl gf : fac_mono gf gf.
 Proof. intros d f H. exists f. split; [assumption|lia]. Qed.
@@ -849,7 +896,7 @@ Proof.
     - repeat split; auto using fac_mono_refl. }
   destruct X as [D M].
   unfold synced_deposit in *. rewrite D, Hd in *. inversion Hc as [Hc']; clear Hc.
-  destruct (load_synced_mono (nd e) _ _ r c Ha Hn M Hs Hc') as (c' & E & L).
+  destruct (load_synced_sup_mono (nd e) _ _ r c Ha Hn M Hs Hc') as (c' & E & L).
   exists c'. rewrite E. split; [reflexivity|assumption].
 Qed.
 
